@@ -3,6 +3,7 @@ import P0f.LogicOk.RoundFrequency
 import P0f.Props.C13
 import P0f.Generated.Logic.WindowMultiplier
 import P0f.Generated.Logic.TcpSignaturesMatch
+import P0f.Generated.Logic.ImpersonateOptions
 /-
   No ZeroDivisionError in the uptime path (C04, C13): the division-safety companions the translator prints next to
   `fingerprint_uptime` and `Uptime.__post_init__` (same control skeleton, `false` exactly where a division is reached with a zero
@@ -103,5 +104,36 @@ theorem gen_tcpSignaturesMatch_divok (s : Sig) (p : PSig) (maxDist : Int) (h : s
      · have e : (s.wtype == WinType.mod) = false := by simpa using hm
        simp only [e, Bool.and_false, Bool.false_and, Bool.false_eq_true, if_false]
        grind (splits := 80))
+
+
+theorem elim_eq_match' {α β : Type} (o : Option α) (e : β) (f : α → β) :
+    o.elim e f = (match o with | none => e | some v => f v) := by cases o <;> rfl
+
+/-- **`_impersonate_options` never divides by zero** on a signature whose `mss*n` window has a non-zero multiplier (what
+    `_parse_window` guarantees, `parseWindow_range`: 1 … 1000): the only division, `(2**16 - 1) // signature.window.size`, is behind
+    the window-type test -/
+theorem gen_impOptions_divok (s : Sig) (b : Base) (uptime : Option Int) (c : Choices) (h : s.wtype = WinType.mss → s.wsize ≠ 0) :
+    Gen.impOptions_divok s b uptime c = true := by
+  first
+  | exact rfl
+  | (have hl : ∀ (t : Nat) (ks : List Nat) (options : List SOpt) (cs : List (Nat × Nat)),
+         Gen.impOptions_divok_loop0 s b uptime c t ks options cs = true := by
+       intro t ks
+       induction ks with
+       | nil => intros; unfold Gen.impOptions_divok_loop0; rfl
+       | cons k ks ih =>
+         intro options cs
+         unfold Gen.impOptions_divok_loop0
+         simp only [ih]
+         by_cases hm : s.wtype = WinType.mss
+         · have := h hm
+           have e : ((((s.wsize : Nat) : Int)) == 0) = false := by simp; omega
+           simp only [e, Bool.false_eq_true, if_false, elim_eq_match']
+           grind (splits := 200) [Sum.elim_inl, Sum.elim_inr]
+         · have e : (s.wtype == WinType.mss) = false := by simpa using hm
+           simp only [e, Bool.false_eq_true, if_false, elim_eq_match']
+           grind (splits := 200) [Sum.elim_inl, Sum.elim_inr]
+     unfold Gen.impOptions_divok
+     simp only [hl])
 
 end P0f
